@@ -85,6 +85,7 @@ def simulate(case, draw, after_op, on_exception=None, shadow=True):
     ts = case["tasks"][0]
     task = e1.task_from_spec(ts)
     progs = {r["id"]: r for r in ts["program"]}
+    task.progs = progs          # ancestry of a slot (which ops produced it) is needed to attribute known findings by the state that fails
     info = {"f5": 0, "f5_effective": 0, "exceptions": 0, "checked_outputs": 0}
     changed = set()
     try:
